@@ -39,7 +39,7 @@ def _import_target():
 
 
 class Result:
-    __slots__ = ('exit_code', 'timed_out', 'signal', 'outputs', 'stdout', 'stderr', 'wall_s')
+    __slots__ = ('exit_code', 'timed_out', 'signal', 'outputs', 'stdout', 'stderr', 'wall_s', 'root')
 
     def __init__(self, exit_code, timed_out, sig, outputs, stdout, stderr, wall_s):
         self.exit_code = exit_code
@@ -49,6 +49,7 @@ class Result:
         self.stdout = stdout
         self.stderr = stderr
         self.wall_s = wall_s
+        self.root = None
 
     @property
     def ok(self) -> bool:
@@ -172,19 +173,27 @@ CROSSCHECKS = 0
 _calls = 0
 
 
-def run_forked(argv, files, cwd='.', timeout_s=10, env=None, trace_hook=None, keep=False) -> Result:
+def run_forked(argv, files, cwd='.', timeout_s=10, env=None, trace_hook=None, keep=False, crosscheck=True) -> Result:
     """files: {relative path: str|bytes} written into a fresh scratch directory before the run.
     Every CROSSCHECK_EVERY-th call is repeated in a genuine interpreter process and must be observably identical
     (faithfulness of the fork shortcut); a disagreement is a harness error, never a verdict."""
     global _calls, CROSSCHECKS
     res = _run_forked(argv, files, cwd, timeout_s, env, trace_hook, keep)
     _calls += 1
-    if CROSSCHECK_EVERY and trace_hook is None and _calls % CROSSCHECK_EVERY == 0 and not res.timed_out:
+    if crosscheck and CROSSCHECK_EVERY and trace_hook is None and _calls % CROSSCHECK_EVERY == 0 and not res.timed_out:
         ref = run_subprocess(argv, files, cwd=cwd, timeout_s=max(30, timeout_s * 3), env=env)
         CROSSCHECKS += 1
         if not same_observable(res, ref):
-            raise HarnessError('fork runner and genuine subprocess disagree: '
-                               f'{res.brief()} vs {ref.brief()} for argv={argv}')
+            where = ''
+            na, nb = _normalised(res), _normalised(ref)
+            for k in sorted(set(na) | set(nb)):
+                if na.get(k) != nb.get(k):
+                    x, y = na.get(k, b''), nb.get(k, b'')
+                    i = next((j for j in range(min(len(x), len(y))) if x[j] != y[j]), min(len(x), len(y)))
+                    where = f'first difference in {k} at byte {i}: fork={x[max(0, i - 40):i + 60]!r} subprocess={y[max(0, i - 40):i + 60]!r}'
+                    break
+            raise HarnessError(f'fork runner and genuine subprocess disagree ({res.klass}/{ref.klass}, exit '
+                               f'{res.exit_code}/{ref.exit_code}) for argv={argv}: {where}')
     return res
 
 
@@ -222,7 +231,9 @@ def _run_forked(argv, files, cwd='.', timeout_s=10, env=None, trace_hook=None, k
                     return f.read(MAX_OUT)
             except FileNotFoundError:
                 return ''
-        return Result(code, timed_out, sig, outputs, rd('__stdout'), rd('__stderr'), wall)
+        r = Result(code, timed_out, sig, outputs, rd('__stdout'), rd('__stderr'), wall)
+        r.root = root
+        return r
     finally:
         if not keep:
             shutil.rmtree(root, ignore_errors=True)
@@ -251,16 +262,27 @@ def run_subprocess(argv, files, cwd='.', timeout_s=20, env=None, hashseed='0', p
         wall = time.monotonic() - t0
         outputs = _collect(root, before)
         sig = -code if (code is not None and code < 0) else None
-        return Result(code, timed_out, sig, outputs, so.decode(errors='replace'), se.decode(errors='replace'), wall)
+        r = Result(code, timed_out, sig, outputs, so.decode(errors='replace'), se.decode(errors='replace'), wall)
+        r.root = root
+        return r
     finally:
         shutil.rmtree(root, ignore_errors=True)
+
+
+def _normalised(r: Result) -> dict:
+    """Outputs with the (random) scratch directory name replaced: listings print absolute paths of included files."""
+    if not r.root:
+        return r.outputs
+    needle = r.root.encode()
+    real = os.path.realpath(r.root).encode()
+    return {k: v.replace(needle, b'<ROOT>').replace(real, b'<ROOT>') for k, v in r.outputs.items()}
 
 
 def same_observable(a: Result, b: Result) -> bool:
     """Faithfulness cross-check between the forked and the genuine subprocess run."""
     if a.klass != b.klass:
         return False
-    if a.klass == 'accepted' and a.outputs != b.outputs:
+    if a.klass == 'accepted' and _normalised(a) != _normalised(b):
         return False
     if a.klass == 'rejected' and set(a.outputs) != set(b.outputs):
         return False
